@@ -66,6 +66,14 @@ def generate(rng: random.Random, tier: str):
                 if e.startswith("cli") and kind != "path":
                     continue
                 yield {"kind": "read", "state": list(st), "store": kind, "entry": e}
+    # a WRITABLE zip archive handed to the read side as a store object (a store type that cannot hand out a read-only view of itself):
+    # empty archive, a geff below a subgroup with no root group, a valid geff at the root -- whatever the call answers, the archive's
+    # member list and bytes must be what they were
+    for state in ("zip-empty", "zip-nested", "zip-valid"):
+        for fmt in (2, 3):
+            for e in READ_ENTRIES:
+                if not e.startswith("cli"):
+                    yield {"kind": "readzip", "state": [state], "fmt": fmt, "entry": e, "store": "zip"}
     for i in range(60 if tier == "quick" else 600):
         g = gg.rand_graph(rng, max_n=4, max_e=3, max_props=3)
         yield {"kind": "write", "entry": rng.choice(["write_arrays", "write_arrays", "write_arrays_val_off"]), "fmt": rng.choice([2, 3]), **g}
@@ -182,6 +190,57 @@ def run_read(c):
     finally:
         if path is not None:
             shutil.rmtree(path, ignore_errors=True)
+    return obs
+
+
+def zip_snapshot(path) -> dict:
+    import zipfile
+
+    with zipfile.ZipFile(path) as z:
+        return {n: z.read(n) for n in z.namelist()}
+
+
+def run_readzip(c):
+    import zarr
+    from zarr.storage import ZipStore
+
+    path = scratch() / f"z-{c['state'][0]}-{c['fmt']}.zip"
+    path.unlink(missing_ok=True)
+    obs = {"mutations": []}
+    try:
+        st = ZipStore(str(path), mode="w")
+        if c["state"][0] == "zip-empty":
+            zarr.open_group(st, mode="a", zarr_format=c["fmt"])      # an archive needs one member to exist on disk; removed below
+            st.close()
+            path.unlink()
+            import zipfile
+            zipfile.ZipFile(path, "w").close()
+        else:
+            src = base_store("full", c["fmt"])
+            prefix = "tracks/" if c["state"][0] == "zip-nested" else ""
+            import zipfile
+            st.close()
+            path.unlink(missing_ok=True)
+            with zipfile.ZipFile(path, "w") as z:
+                for k, v in src._store_dict.items():
+                    z.writestr(prefix + k, bytes(v.to_bytes()))
+        before = zip_snapshot(path)
+        target = ZipStore(str(path), mode="a")
+        try:
+            call_read(c["entry"], target)
+            obs["res"] = ["ok"]
+        except Exception as e:
+            obs["res"] = ["err", exn_name(e), type(e).__name__, str(e)[:100]]
+        try:
+            target.close()
+        except Exception:
+            pass
+        after = zip_snapshot(path)
+        obs["unchanged"] = after == before
+        if not obs["unchanged"]:
+            obs["delta"] = sorted(set(after) ^ set(before))[:6] + [k for k in after if k in before and after[k] != before[k]][:6]
+    finally:
+        path.unlink(missing_ok=True)
     return obs
 
 
@@ -343,6 +402,8 @@ def run_write(c):
 def run_impl(c):
     if c["kind"] == "read":
         return run_read(c)
+    if c["kind"] == "readzip":
+        return run_readzip(c)
     if c["kind"] == "open":
         return run_open(c)
     return run_write(c)
@@ -353,7 +414,7 @@ def coq_case(c, o):
 
 
 def oracle(c, o):
-    if c["kind"] == "read":
+    if c["kind"] in ("read", "readzip"):
         if not o["unchanged"] or o["mutations"]:
             return Failure(c, slim(o), f"{c['entry']} on a {c['state'][0]} store changed it: mutations {o['mutations'][:4]}, delta {o.get('delta')}",
                            {"why": "read-mutates", "entry": c["entry"], "state": c["state"][0]})
@@ -371,7 +432,7 @@ def slim(o):
 
 
 def nontrivial(c, o):
-    if c["kind"] == "read":
+    if c["kind"] in ("read", "readzip"):
         return c["state"][0] not in ("absent", "empty")
     if c["kind"] == "write":
         return True
@@ -379,7 +440,7 @@ def nontrivial(c, o):
 
 
 def describe(c, o):
-    if c["kind"] == "read":
+    if c["kind"] in ("read", "readzip"):
         return f"read:{c['entry']}:{c['store']}:{c['state'][0]}:{o['res'][0] if o['res'][0] == 'ok' else o['res'][2]}"
     if c["kind"] == "open":
         return f"open:{c['mode']}:{c['store']}:{c['state']}:{o['res'][0] if o['res'][0] == 'ok' else o['res'][2]}:created={o['created']}"
